@@ -49,6 +49,8 @@ type Proc struct {
 	conns     []*ConnEnd
 	SlowStart time.Duration
 	Ext       map[string]interface{}
+	// StalledUntil: until this simulated instant no task of the process is scheduled
+	StalledUntil time.Duration
 }
 
 func NewKernel(w *World) *Kernel {
@@ -509,6 +511,16 @@ func (k *Kernel) Live(ppid int) []*Proc {
 		}
 	}
 	return out
+}
+
+// Stall stops every task of the process for d of simulated time (a stalled / starved process).
+func (k *Kernel) Stall(p *Proc, d time.Duration) {
+	if p == nil || p.Exited {
+		return
+	}
+	p.StalledUntil = k.w.Now() + d
+	k.event("stall", p.Pid, d.String())
+	k.w.After(d, func() {}) // make sure the clock visits the instant the stall ends
 }
 
 // Signals
